@@ -186,7 +186,11 @@ impl PolicyEngine for VPolicy {
             };
             CheckTiming {
                 time,
-                minimum_wait: ans["minwait"].get(0).and_then(|x| x.as_u64()).map(Duration::from_secs),
+                // "mwms" (milliseconds) takes precedence over "minwait" (seconds)
+                minimum_wait: match ans.get("mwms").and_then(|x| x.get(0)).and_then(|x| x.as_u64()) {
+                    Some(ms) => Some(Duration::from_millis(ms)),
+                    None => ans["minwait"].get(0).and_then(|x| x.as_u64()).map(Duration::from_secs),
+                },
             }
         }
         .boxed()
